@@ -268,6 +268,15 @@ func validateOriginalURL(u, prefix string) string {
 		}
 		return "/"
 	}
+	// A same-origin path starts with exactly one slash. url.Parse reports no
+	// host for "///x" (empty authority), "/\x" or "\\x", yet browsers resolve
+	// all of them against another origin, so the Host check above is not enough.
+	if !strings.HasPrefix(u, "/") || (len(u) > 1 && (u[1] == '/' || u[1] == '\\')) {
+		if prefix != "" {
+			return prefix
+		}
+		return "/"
+	}
 	return u
 }
 
